@@ -34,6 +34,9 @@ pub struct PtCfg {
     pub killpriv_v2: bool,
     /// per-file DAX: Config.dax_file_size = Some(8)
     pub dax: bool,
+    /// behind a Vfs: the switches are set in VfsOptions only, the passthrough Config keeps its defaults (the layer
+    /// has to honour what the Vfs negotiated)
+    pub layer_cfg_off: bool,
 }
 
 impl PtCfg {
@@ -51,11 +54,12 @@ impl PtCfg {
             seal_size: false,
             killpriv_v2: false,
             dax: false,
+            layer_cfg_off: false,
         }
     }
     pub fn label(&self) -> String {
         format!(
-            "{}{}{}{}{}cache{}{}{}{}{}{}{}",
+            "{}{}{}{}{}cache{}{}{}{}{}{}{}{}",
             if self.no_open { "noopen," } else { "" },
             if self.no_opendir { "noopendir," } else { "" },
             if self.inode_file_handles { "filehandles," } else { "" },
@@ -68,6 +72,7 @@ impl PtCfg {
             if self.seal_size { ",seal" } else { "" },
             if self.killpriv_v2 { ",killpriv" } else { "" },
             if self.dax { ",dax" } else { "" },
+            if self.layer_cfg_off { ",switches-in-vfs-only" } else { "" },
         )
     }
     /// A list in which every pair of switch values occurs (quick tier).
@@ -99,6 +104,7 @@ impl PtCfg {
                     behind_vfs: bits & 128 != 0,
                     killpriv_v2: bits & 256 != 0,
                     dax: false,
+                    layer_cfg_off: false,
                     cache,
                     seal_size: false,
                 };
@@ -338,11 +344,11 @@ impl PtWorld {
         let pcfg = Config {
             root_dir: exp.to_string_lossy().to_string(),
             do_import: !cfg.behind_vfs,
-            no_open: cfg.no_open,
-            no_opendir: cfg.no_opendir,
+            no_open: cfg.no_open && !(cfg.behind_vfs && cfg.layer_cfg_off),
+            no_opendir: cfg.no_opendir && !(cfg.behind_vfs && cfg.layer_cfg_off),
             inode_file_handles: cfg.inode_file_handles,
             use_host_ino: cfg.use_host_ino,
-            writeback: cfg.writeback,
+            writeback: cfg.writeback && !(cfg.behind_vfs && cfg.layer_cfg_off),
             cache_policy: match cfg.cache {
                 1 => CachePolicy::Always,
                 2 => CachePolicy::Never,
@@ -350,7 +356,7 @@ impl PtWorld {
             },
             xattr: cfg.xattr,
             seal_size: cfg.seal_size,
-            killpriv_v2: cfg.killpriv_v2,
+            killpriv_v2: cfg.killpriv_v2 && !(cfg.behind_vfs && cfg.layer_cfg_off),
             dax_file_size: if cfg.dax { Some(8) } else { None },
             ..Config::default()
         };
